@@ -197,8 +197,15 @@ func runProxyAttachRace(t *testing.T, idx int, em *Emitter, placed bool, procs i
 	if leakedAny {
 		tags = append(tags, "leaked-at-end")
 	}
-	em.Emit(Rec{Idx: idx, Kind: kind, Desc: map[string]any{"placed": placed, "gomaxprocs": procs, "rounds": len(rounds)},
-		Obs: map[string]any{"rounds": len(rounds), "rounds_violating": hits}, Tags: tags,
-		Coq: "CProxyRace " + coqList(rounds)})
+	// one record per 2000 rounds (the Coq parser's stack does not take a term of 100000 rounds)
+	for lo := 0; lo == 0 || lo < len(rounds); lo += 2000 {
+		hi := lo + 2000
+		if hi > len(rounds) {
+			hi = len(rounds)
+		}
+		em.Emit(Rec{Idx: idx, Kind: kind, Desc: map[string]any{"placed": placed, "gomaxprocs": procs, "rounds": len(rounds), "from_round": lo},
+			Obs: map[string]any{"rounds": len(rounds), "rounds_violating": hits}, Tags: tags,
+			Coq: "CProxyRace " + coqList(rounds[lo:hi])})
+	}
 	em.Marker("end", idx)
 }
